@@ -497,8 +497,128 @@ class _NoSRA(Exception):
     pass
 
 
+# -- a generator function consumed by a for loop -----------------------------------------------------------------------------
+def _own_loop_breaks(body):
+    """Does a loop body contain a `break` that belongs to this loop (not to a nested loop)?"""
+    todo = list(body)
+    while todo:
+        n = todo.pop()
+        if isinstance(n, ast.Break):
+            return True
+        if isinstance(n, (ast.For, ast.While, ast.AsyncFor)):
+            todo.extend(n.orelse)
+            continue
+        if isinstance(n, (ast.FunctionDef, ast.AsyncFunctionDef, ast.Lambda, ast.ClassDef)):
+            continue
+        todo.extend(ast.iter_child_nodes(n))
+    return False
+
+
+def _inline_generator_loop(fn, loop, funcs):
+    """`for T in g(args): BODY` with g a module-level generator of the shape `pre...; for v in xs: A...; yield E; B...`:
+    the statements `pre...; for v in xs: A...; T = E; BODY; B...` (g's names renamed).  A `continue` in BODY has to reach B, so BODY
+    runs inside a one-trip loop; a `break` of BODY's own loop is not expressible that way and blocks the rewrite."""
+    import copy
+    it = loop.iter
+    if loop.orelse or not (isinstance(it, ast.Call) and isinstance(it.func, ast.Name)) or it.keywords or any(isinstance(a, ast.Starred) for a in it.args):
+        return None
+    g = funcs.get(it.func.id)
+    if g is None or g is fn or g.decorator_list or not isinstance(g, ast.FunctionDef):
+        return None
+    a = g.args
+    if a.vararg or a.kwarg or a.posonlyargs or a.kwonlyargs or len(it.args) > len(a.args) or len(a.args) - len(it.args) > len(a.defaults):
+        return None
+    body = list(g.body)
+    if body and isinstance(body[0], ast.Expr) and isinstance(body[0].value, ast.Constant) and isinstance(body[0].value.value, str):
+        body = body[1:]
+    loops = [k for k, st in enumerate(body) if isinstance(st, ast.For)]
+    if len(loops) != 1:
+        return None
+    k = loops[0]
+    pre, gloop, post = body[:k], body[k], body[k + 1:]
+    if post or gloop.orelse:
+        return None
+    own = list(_own_nodes(g))
+    yields = [n for n in own if isinstance(n, (ast.Yield, ast.YieldFrom))]
+    top = [j for j, st in enumerate(gloop.body) if isinstance(st, ast.Expr) and isinstance(st.value, ast.Yield)]
+    if len(yields) != 1 or len(top) != 1 or yields[0] is not gloop.body[top[0]].value or yields[0].value is None:
+        return None
+    if any(isinstance(n, (ast.Return, ast.Global, ast.Nonlocal)) for n in own):
+        return None
+    if any(isinstance(n, (ast.FunctionDef, ast.Lambda, ast.ClassDef)) for n in ast.walk(g) if n is not g):
+        return None
+    if _own_loop_breaks(loop.body) or _own_loop_breaks(gloop.body):
+        return None
+    if any(isinstance(n, (ast.Yield, ast.YieldFrom)) for st in loop.body for n in ast.walk(st)):
+        return None
+    j = top[0]
+    suffix = '__' + g.name
+    params = [x.arg for x in a.args]
+    stored = {n.id for n in ast.walk(g) if isinstance(n, ast.Name) and isinstance(n.ctx, ast.Store)}
+    local_names = stored | set(params)
+    fparams = {x.arg for x in fn.args.args + fn.args.kwonlyargs + fn.args.posonlyargs}
+    fstored = {n.id for n in ast.walk(fn) if isinstance(n, ast.Name) and isinstance(n.ctx, ast.Store)}
+    fnames = {n.id for n in ast.walk(fn) if isinstance(n, ast.Name)} | fparams
+    if any((n + suffix) in fnames for n in local_names):
+        return None
+    defaults = dict(zip(params[len(params) - len(a.defaults):], a.defaults))
+    subst = {}
+    binds = []
+    for idx, name in enumerate(params):
+        arg = it.args[idx] if idx < len(it.args) else defaults[name]
+        if isinstance(arg, ast.Name) and arg.id in fparams and arg.id not in fstored and name not in stored:
+            subst[name] = arg.id          # the caller's own, never reassigned parameter: same object throughout
+        else:
+            binds.append(ast.Assign(targets=[ast.Name(id=name + suffix, ctx=ast.Store())], value=arg, type_comment=None))
+
+    class Ren(ast.NodeTransformer):
+        def visit_Name(self, n):
+            if n.id in subst:
+                return ast.copy_location(ast.Name(id=subst[n.id], ctx=n.ctx), n)
+            if n.id in local_names:
+                return ast.copy_location(ast.Name(id=n.id + suffix, ctx=n.ctx), n)
+            return n
+    ren = lambda st: Ren().visit(copy.deepcopy(st))
+    new_pre = [ren(st) for st in pre]
+    before = [ren(st) for st in gloop.body[:j]]
+    after = [ren(st) for st in gloop.body[j + 1:]]
+    bind_t = ast.Assign(targets=[loop.target], value=ren(gloop.body[j]).value.value, type_comment=None)
+    has_continue = any(isinstance(n, ast.Continue) for st in loop.body for n in ast.walk(st))
+    inner = list(loop.body)
+    if after and has_continue:
+        once = ast.For(target=ast.Name(id='_once' + suffix, ctx=ast.Store()), iter=ast.Tuple(elts=[ast.Constant(value=0)], ctx=ast.Load()),
+                       body=inner, orelse=[], type_comment=None)
+        inner = [once]
+    new_loop = ast.For(target=ren(gloop).target, iter=ren(gloop).iter, body=before + [bind_t] + inner + after, orelse=[], type_comment=None)
+    out = binds + new_pre + [new_loop]
+    for st in out:
+        for n in ast.walk(st):
+            if isinstance(n, (ast.stmt, ast.expr)) and not hasattr(n, 'lineno'):
+                ast.copy_location(n, loop)
+    return out
+
+
+def _inline_generator_loops(fn, funcs):
+    changed = False
+    new_body = []
+    for st in fn.body:
+        if isinstance(st, ast.For):
+            repl = _inline_generator_loop(fn, st, funcs)
+            if repl is not None:
+                new_body.extend(repl)
+                changed = True
+                continue
+        new_body.append(st)
+    if changed:
+        fn.body = new_body
+    return changed
+
+
 def normalise_tree(tree):
     tree = _Normalise().visit(tree)
+    gen_funcs = {n.name: n for n in tree.body if isinstance(n, ast.FunctionDef)}
+    for n in list(gen_funcs.values()):
+        _inline_generator_loops(n, gen_funcs)
     record_classes = {}
     for n in tree.body:
         if isinstance(n, ast.ClassDef):
@@ -663,9 +783,17 @@ class Report:
         """Instance floor: fewer analysed instances than confirmed by hand = analysis broken."""
         self._floors.append((key, minimum))
 
+    def undecided(self, message):
+        """Part of the code was not understood.  The run goes on (a violation established elsewhere must not be masked); if it
+        ends without findings the verdict is 'no verdict' with this message."""
+        self.__dict__.setdefault('_undecided', []).append(str(message))
+
     def check_floors(self):
         """Evaluated by the runner when no violation was found: a vacuous pass is analysis-broken, but a floor must not
         mask a violation that was already established."""
+        und = self.__dict__.get('_undecided', [])
+        if und:
+            raise AnalysisError(und[0] + (' (+{} more)'.format(len(set(und)) - 1) if len(set(und)) > 1 else ''))
         for key, minimum in self._floors:
             have = self.analysed.get(key, 0)
             if have < minimum:
